@@ -1164,3 +1164,7 @@ impl Query {
         Ok(result_string)
     }
 }
+
+#[cfg(discret_verif)]
+#[path = "/verif/hooks/query.rs"]
+pub(crate) mod verif_hook;
